@@ -19,7 +19,9 @@ Clauses
   relocation_never_lowers  pair (no_resilient_foods, relocated_crops), same country/options/timers: month by month
   expansion_never_lowers   pair (all_resilient_foods, all_resilient_foods_and_more_area)
   no_quantisation          floating dtype; the series must not sit on the integer lattice when the amount grown
-                           x (1 - fraction) does not (outdoor crops and greenhouse crops)
+                           x (1 - fraction) does not (outdoor crops and greenhouse crops); engine-P slice: what each
+                           round's optimiser is handed equals, bit for bit, what the parameter computation returned
+                           (nothing rounds or truncates on the way, retry paths after solver faults included)
 
 Attribution: when a deviation of land_identity / a pair clause is explained exactly by integer
 truncation of the series, it is reported by no_quantisation (and by the pair clause with
@@ -42,7 +44,10 @@ RULE = (
     "(all_resilient_foods vs all_resilient_foods_and_more_area) on the same country/options/timers, a greenhouse delay "
     "pair, 3 small-country jobs (LUX, BRB, MLT, SGP, ...) with greenhouses/relocation; a case = one job whose outdoor "
     "series, observed amount grown and greenhouse fraction are compared; non-trivial = greenhouses or relocation "
-    "switched on and outdoor growing on; distinct = distinct (row digest, option vector, horizon, timers)"
+    "switched on and outdoor growing on; distinct = distinct (row digest, option vector, horizon, timers). Every 8th "
+    "history is an engine-P history instead: 2-3 full three-round jobs under solver faults (half of them), where the crop "
+    "series every optimiser is handed are compared exactly with copies taken when the parameter computation returned "
+    "them (no_quantisation, where=between_computation_and_optimiser)"
 )
 ASSUMPTIONS = [
     "the code applies (1 - distribution waste) after the land factor; the identity is checked with that factor",
@@ -55,6 +60,14 @@ ASSUMPTIONS = [
     "and crop_kcals overrides; the food_system classes are not called directly (not applicable to this technique)",
 ]
 COMPONENTS = engine_p0.components()
+try:
+    from .. import pcheck as _pc
+
+    _pcomp = _pc.components()
+    COMPONENTS = {k: list(COMPONENTS.get(k, [])) + ["(engine-P slice) " + x for x in _pcomp.get(k, []) if x not in COMPONENTS.get(k, [])]
+                  for k in set(COMPONENTS) | set(_pcomp)}
+except Exception:  # pragma: no cover
+    pass
 TIERS = {
     "quick": {"histories": 256, "budget_s": 60, "timeout": 240, "batch": 64, "shrink_s": 20},
     "thorough": {"histories": 4800, "budget_s": 780, "timeout": 300, "batch": 320, "shrink_s": 45},
@@ -230,7 +243,17 @@ def check_gh_delay_pair(a, b, p, V):
 
 
 # =========================================================================== history
+P_SLICE_EVERY = 8  # every 8th history is an engine-P history (three-round runs under solver faults)
+
+
 def generate(seed, h, tier):
+    if h % P_SLICE_EVERY == P_SLICE_EVERY - 1:
+        from .. import pcheck
+
+        s = pcheck.generate(seed, ID, h, tier, jobs=(2, 3), vertex_p=0.2, fault_p=0.5, buggify_p=0.0,
+                            profile_bias={"scenario": (0.6, LAND_SCENARIOS)})
+        s["p_slice"] = True
+        return s
     rng = core.Rng(seed, ID, h)
     wl = rng.sub("workload")
     hb = engine_p0.HistoryBuilder(h, ID)
@@ -289,8 +312,25 @@ def evaluate(results, spec, V, probes):
     return nontrivial, evaluations
 
 
+def _p_nontrivial(t, spec, i):
+    return [core.digest([spec["jobs"][i], "rounds"])] if t.rounds else []
+
+
 def execute(spec):
+    if spec.get("p_slice"):
+        from .. import monitors, pcheck
+
+        return pcheck.execute(spec, ID, monitors.c09_rounds, _p_nontrivial)
     return engine_p0.run_history(spec, evaluate)
 
 
-shrink = engine_p0.shrink
+def shrink(spec):
+    if spec.get("p_slice"):
+        from .. import pcheck
+
+        for s in pcheck.shrink(spec):
+            s["p_slice"] = True
+            yield s
+        return
+    for s in engine_p0.shrink(spec):
+        yield s
